@@ -281,3 +281,235 @@ def enforced(fn, ev, call_bb, world=None):
     if values.contains(r, lambda s: s == cterm) or r == cterm:
         return ("returned", None)
     return ("unchecked", "result is neither branched on nor returned")
+
+
+# ------------------------------------------------------------------------------------------------ message / buffer models
+def message_events(W, ev, obj, live=None):
+    """Ordered events on an RtMessage object local: [('add', tag, value_term, bb) | ('clear', bb) | ('other', name, bb)].
+    Read-only uses (shared borrows) are skipped.  Order is reverse post-order of blocks; the caller checks dominance."""
+    fn = ev.fn
+    order = {b: i for i, b in enumerate(fn.rpo())}
+    out = []
+    for (b, callee, argi, ap) in ev.events_on(obj[2]):
+        if live is not None and b not in live:
+            continue
+        t = fn.blocks[b].term
+        aty = t["arg_tys"][argi]
+        if not aty.startswith("&mut"):
+            continue
+        name = callee_name(callee)
+        if argi == 0 and strip_generics(callee).endswith("RtMessage::add_field"):
+            args = ev.call_args(b)
+            out.append(("add", tag_of(args[1]), args[2], b))
+        elif argi == 0 and strip_generics(callee).endswith("RtMessage::clear"):
+            out.append(("clear", b))
+        else:
+            out.append(("other", name, b))
+    out.sort(key=lambda e: order.get(e[-1], 10 ** 6))
+    return out
+
+
+def straight_line(fn, bbs):
+    """Each block dominates the next and none lies in a loop."""
+    for a, b in zip(bbs, bbs[1:]):
+        if not fn.dominates(a, b):
+            return False
+    return not any(fn.in_loop(b) for b in bbs)
+
+
+def le_written(W, obj):
+    """For a fixed-size byte array object initialised with zeros and written exactly once through
+    byteorder::WriteBytesExt::write_uN::<E>: returns dict(width=N, size=array len, endian=E, value=term)."""
+    if not (isinstance(obj, tuple) and obj and obj[0] == "obj"):
+        return None
+    ev = W.ev(obj[1])
+    fn = ev.fn
+    init = W.obj_init(obj)
+    if not (isinstance(init, tuple) and init[0] == "repeat"):
+        return None
+    writes = []
+    for (b, callee, argi, ap) in ev.events_on(obj[2]):
+        t = fn.blocks[b].term
+        if not t["arg_tys"][argi].startswith("&mut"):
+            continue
+        name = callee_name(callee)
+        if name.startswith("write_u") or name.startswith("write_i"):
+            writes.append((b, name, t))
+        elif name in ("deref_mut", "as_mut", "as_mut_slice", "borrow_mut"):
+            continue
+        else:
+            return None
+    if len(writes) != 1:
+        return None
+    b, name, t = writes[0]
+    endian = [s for s in t["fn"].get("substs", []) if "Endian" in s]
+    return {"size": init[2], "width": int(name.split("_")[1][1:]) // 8, "endian": endian[0].split("::")[-1] if endian else None,
+            "value": ev.call_args(b)[1], "bb": b, "signed": name.startswith("write_i")}
+
+
+def iter_elem(W, t):
+    """Recognise `container.iter().enumerate().next()` element projections.
+    Returns dict(container=term, what='index'|'elem', fields=(...), site=next call site) or None."""
+    fields = []
+    cur = t
+    for _ in range(12):
+        if isinstance(cur, tuple) and cur and cur[0] == "field":
+            fields.append(cur[2])
+            cur = cur[1]
+            continue
+        break
+    fields = list(reversed(fields))
+    if not (isinstance(cur, tuple) and cur and cur[0] == "vfield" and cur[2] == "Some"):
+        return None
+    nxt = cur[1]
+    if not is_call(nxt) or callee_name(nxt[1]) != "next":
+        return None
+    src = W.expand(nxt[2][0])
+    while isinstance(src, tuple) and src and src[0] == "reader":
+        src = src[1]
+    enumerated = False
+    if is_call(src) and callee_name(src[1]) == "enumerate":
+        enumerated = True
+        src = src[2][0]
+        while isinstance(src, tuple) and src and src[0] == "reader":
+            src = src[1]
+    what = "elem"
+    if enumerated:
+        if not fields:
+            return None
+        if fields[0] == "0":
+            what = "index"
+        fields = fields[1:]
+    return {"container": src, "what": what, "fields": tuple(fields), "site": nxt[3]}
+
+
+def uncast(t):
+    while isinstance(t, tuple) and t and t[0] == "cast":
+        t = t[3]
+    return t
+
+
+# ------------------------------------------------------------------------------------------------ byte-length domain (A8)
+DIGEST_LEN = {"ring::digest::SHA512": 64, "ring::digest::SHA256": 32, "ring::digest::SHA384": 48,
+              "ring::digest::SHA512_256": 32}
+
+
+def bytelen(W, ev, t, depth=0):
+    """Length in bytes of a byte-string valued term, or None when unknown.  `ev` supplies the assumption set used to
+    resolve crate-local accessor calls (e.g. the version)."""
+    if not isinstance(t, tuple) or not t or depth > 10:
+        return None
+    k = t[0]
+    if k == "bytes":
+        return len(t[1])
+    if k == "str":
+        return len(t[1].encode())
+    if k == "repeat":
+        n = t[2]
+        return n if isinstance(n, int) else None
+    if k == "reader":
+        return bytelen(W, ev, t[1], depth + 1)
+    if k == "obj":
+        init = W.obj_init(t)
+        if isinstance(init, tuple) and init[0] == "repeat":
+            return bytelen(W, ev, init, depth + 1)
+        return None
+    if k == "phi":
+        ls = {bytelen(W, ev, a, depth + 1) for a in t[1]}
+        return ls.pop() if len(ls) == 1 else None
+    if k == "index":
+        rng = t[2]
+        if rng[0] == "agg":
+            lab = str(rng[1])
+            ops = [intval(W, ev, o) for o in rng[2]]
+            if lab.endswith("RangeTo::RangeTo") and ops[0] is not None:
+                return ops[0]
+            if lab.endswith("Range::Range") and None not in ops:
+                return ops[1] - ops[0]
+            if lab.endswith("RangeFull::RangeFull"):
+                return bytelen(W, ev, t[1], depth + 1)
+            if lab.endswith("RangeFrom::RangeFrom") and ops[0] is not None:
+                b = bytelen(W, ev, t[1], depth + 1)
+                return None if b is None else b - ops[0]
+        return None
+    if k == "call":
+        name = callee_name(t[1])
+        p = strip_generics(t[1])
+        if name == "from_elem" and len(t[2]) == 2:
+            return intval(W, ev, t[2][1])
+        if p.endswith("digest::Context::finish") or p.endswith("Digest::as_ref") or name == "finish":
+            ctxo = t[2][0]
+            init = W.obj_init(ctxo) if ctxo[0] == "obj" else None
+            if is_call(init, "Context::new"):
+                alg = init[2][0]
+                return digest_len(W, ev, alg)
+            return None
+        if t[1] in W.prog.fns:
+            r = ev.inline(t)
+            if r != t:
+                return bytelen(W, ev, r, depth + 1)
+        return None
+    return None
+
+
+def digest_len(W, ev, alg):
+    alg = resolve_fields(W, ev, alg)
+    if isinstance(alg, tuple) and alg[0] == "static":
+        return DIGEST_LEN.get(alg[1])
+    if isinstance(alg, tuple) and alg[0] == "phi":
+        ls = {digest_len(W, ev, a) for a in alg[1]}
+        return ls.pop() if len(ls) == 1 else None
+    return None
+
+
+def resolve_fields(W, ev, t):
+    """Resolve field(self, F) through the unique constructor set of self's type (all constructors must agree)."""
+    if isinstance(t, tuple) and t and t[0] == "field" and isinstance(t[1], tuple) and t[1][0] == "param":
+        fn = W.prog.fns.get(t[1][1])
+        if fn is not None and fn.impl_self and t[1][2] == 1:
+            adt = fn.impl_self
+            vals = []
+            for (cfn, bb, idx, fields) in W.ctor_fields(adt):
+                if t[2] in fields:
+                    vals.append(fields[t[2]])
+            uniq = []
+            for v in vals:
+                if v not in uniq:
+                    uniq.append(v)
+            if len(uniq) == 1:
+                return uniq[0]
+            if uniq:
+                return ("phi", tuple(uniq))
+    return t
+
+
+def intval(W, ev, t, depth=0):
+    """Integer value of a term under ev's assumptions (inlines crate-local calls, knows Algorithm::output_len)."""
+    if not isinstance(t, tuple) or not t or depth > 8:
+        return None
+    if t[0] == "int":
+        return t[1]
+    if t[0] == "cast":
+        return intval(W, ev, t[3], depth + 1)
+    if t[0] == "phi":
+        vs = {intval(W, ev, a, depth + 1) for a in t[1]}
+        return vs.pop() if len(vs) == 1 else None
+    if t[0] == "bin":
+        a, b = intval(W, ev, t[2], depth + 1), intval(W, ev, t[3], depth + 1)
+        if a is None or b is None:
+            return None
+        f = values.fold_bin(t[1], ("int", a), ("int", b))
+        return f[1] if f else None
+    if t[0] == "len":
+        return bytelen(W, ev, t[1], depth + 1)
+    if t[0] == "call":
+        p = strip_generics(t[1])
+        if p.endswith("digest::Algorithm::output_len"):
+            return digest_len(W, ev, t[2][0])
+        if callee_name(t[1]) == "len" and t[2]:
+            return bytelen(W, ev, t[2][0], depth + 1)
+        if t[1] in W.prog.fns:
+            r = ev.inline(t)
+            if r != t:
+                return intval(W, ev, r, depth + 1)
+    return None
